@@ -15,6 +15,7 @@ for pid in sys.argv[1:]:
     pkgs = sorted({"github.com/icon-project/goloop/" + os.path.dirname(f) for f in files})
     cl = check.PROPS[pid]["cluster"]
     out = "/tmp/cov2/%s.out" % pid
+    env["VERIF_KNOWN"] = "\n".join("%s\t%s" % kv for kv in check.known_findings(pid))
     cmd = ["go", "test", "-tags", "verif", "-vet=off", "-count=1", "-timeout", "1200s", "-run", "^Test%s$" % pid,
            "-coverpkg=" + ",".join(pkgs), "-coverprofile=" + out, "./" + cl + "/", "-rapid.seed=1"]
     r = subprocess.run(cmd, cwd=os.path.join(VERIF, "harness"), env=env, stdout=subprocess.PIPE, stderr=subprocess.STDOUT, text=True)
